@@ -162,11 +162,17 @@ pub fn run_batch(prop: Box<dyn Property>, tier: Tier) -> BatchResult {
             for s in slots.iter() {
                 let idx = s.0.load(Ordering::SeqCst);
                 let st = s.1.load(Ordering::SeqCst);
-                if idx > 0 && now.saturating_sub(st) > 120_000 {
+                if idx > 0 && now.saturating_sub(st) > 45_000 {
                     let index = idx - 1;
+                    // the scenario is re-run alone in a fresh process before anything is
+                    // reported: a stall of this (possibly overloaded) process is not a hang
+                    if !hangs_in_isolation(prop.id(), index, tier) {
+                        s.1.store(started.elapsed().as_millis() as u64, Ordering::SeqCst);
+                        continue;
+                    }
                     let mut rng = Rng::new(case_seed(seed, prop.id(), index));
                     let case = prop.generate(&mut rng, tier);
-                    let path = write_replay(&root, prop.id(), index, seed, &case, "hang", "a single scenario ran for more than 120 s of wall-clock time without returning");
+                    let path = write_replay(&root, prop.id(), index, seed, &case, "hang", "a single scenario ran for more than 45 s inside the batch and again for more than 90 s alone in a fresh process without returning");
                     println!(
                         "VIOLATION property={} replay={} rule={}.hang (wall-clock backstop; not minimised)",
                         prop.id(),
@@ -643,6 +649,43 @@ pub fn supervise(id: &str, tier: Tier) -> i32 {
     2
 }
 
+/// Wait for a child with a wall-clock limit; None = it had to be killed.
+pub fn wait_limited(child: &mut std::process::Child, limit: Duration) -> Option<std::process::ExitStatus> {
+    let start = Instant::now();
+    loop {
+        match child.try_wait() {
+            Ok(Some(st)) => return Some(st),
+            Ok(None) => {
+                if start.elapsed() > limit {
+                    let _ = child.kill();
+                    let _ = child.wait();
+                    return None;
+                }
+                std::thread::sleep(Duration::from_millis(20));
+            }
+            Err(_) => return None,
+        }
+    }
+}
+
+fn hangs_in_isolation(id: &str, index: u64, tier: Tier) -> bool {
+    let Ok(exe) = std::env::current_exe() else {
+        return true;
+    };
+    let child = std::process::Command::new(exe)
+        .arg("one")
+        .arg(id)
+        .arg(index.to_string())
+        .arg(if tier == Tier::Quick { "quick" } else { "thorough" })
+        .stdout(std::process::Stdio::null())
+        .stderr(std::process::Stdio::null())
+        .spawn();
+    match child {
+        Ok(mut c) => wait_limited(&mut c, Duration::from_secs(90)).is_none(),
+        Err(_) => true,
+    }
+}
+
 /// Run one generated scenario (by index) in this process; used by the supervisor.
 pub fn one(id: &str, index: u64, tier: Tier) -> i32 {
     let Some(prop) = crate::props::by_id(id) else {
@@ -665,7 +708,22 @@ pub fn one(id: &str, index: u64, tier: Tier) -> i32 {
 /// Replay in a child so that an aborting case is reported rather than killing the caller.
 pub fn replay_supervised(path: &Path) -> i32 {
     let exe = std::env::current_exe().unwrap();
-    let st = std::process::Command::new(&exe).arg("replay-inner").arg(path).status();
+    let spawned = std::process::Command::new(&exe).arg("replay-inner").arg(path).spawn();
+    let st = match spawned {
+        Ok(mut c) => match wait_limited(&mut c, Duration::from_secs(120)) {
+            Some(st) => Ok(st),
+            None => {
+                let prop = std::fs::read_to_string(path)
+                    .ok()
+                    .and_then(|t| serde_json::from_str::<ReplayFile>(&t).ok())
+                    .map_or_else(|| "?".to_string(), |r| r.property);
+                println!("VIOLATION property={prop} replay={} rule={prop}.hang", path.display());
+                println!("  detail: the process executing this case did not finish within 120 s");
+                return 1;
+            }
+        },
+        Err(e) => Err(e),
+    };
     match st {
         Ok(s) => match s.code() {
             Some(c) => c,
